@@ -213,7 +213,7 @@ func createInputConverter(functionType reflect.Type) (func([]*variable.Value) ([
 		if !ok {
 			return nil, fmt.Errorf("argument number %d has an unsupported type %v", i, functionType.In(i).Kind())
 		}
-		argConverters = append(argConverters, argConverter)
+		argConverters = append(argConverters, convertingTo(functionType.In(i), argConverter))
 	}
 	return func(args []*variable.Value) ([]reflect.Value, error) {
 		if len(args) < numIn {
@@ -243,13 +243,14 @@ func createVariadicInputConverter(functionType reflect.Type) (func([]*variable.V
 		if !ok {
 			return nil, fmt.Errorf("argument number %d has an unsupported type %v", i, functionType.In(i).Kind())
 		}
-		argConverters = append(argConverters, argConverter)
+		argConverters = append(argConverters, convertingTo(functionType.In(i), argConverter))
 	}
 
 	variadicArgsConverter, ok := argConverterByGoalKind[functionType.In(numIn-1).Elem().Kind()]
 	if !ok {
 		return nil, fmt.Errorf("argument number %d has an unsupported type %v", numIn-1, functionType.In(numIn-1).Kind())
 	}
+	variadicArgsConverter = convertingTo(functionType.In(numIn-1).Elem(), variadicArgsConverter)
 
 	return func(args []*variable.Value) ([]reflect.Value, error) {
 		if len(args) < numIn-1 {
@@ -275,6 +276,18 @@ func createVariadicInputConverter(functionType reflect.Type) (func([]*variable.V
 
 		return inputParameters, nil
 	}, nil
+}
+
+// convertingTo makes argConverter yield values of exactly goalType (which may be a named type of the
+// kind argConverter produces), as reflect.Value.Call requires.
+func convertingTo(goalType reflect.Type, argConverter func(*variable.Value) (reflect.Value, error)) func(*variable.Value) (reflect.Value, error) {
+	return func(value *variable.Value) (reflect.Value, error) {
+		converted, err := argConverter(value)
+		if err != nil {
+			return converted, err
+		}
+		return converted.Convert(goalType), nil
+	}
 }
 
 var argConverterByGoalKind map[reflect.Kind]func(*variable.Value) (reflect.Value, error) = map[reflect.Kind]func(*variable.Value) (reflect.Value, error){
